@@ -138,22 +138,44 @@ CALLS = {"Layer": ["remove_glyph", "insert_glyph", "clear", "retain"],
 
 
 def touches(impl, typ, fns):
+    """index mutations per public method, calls to ANY method defined in the same impl followed transitively (a
+    refactor that moves an update into a private helper - `remove_at`, `assign_file_name` - keeps the table);
+    an index handed out as `&mut self.<index>` to something that is not followed is an unknown shape"""
+    impl_fns = set(re.findall(r"\bfn\s+([a-z_][a-z0-9_]*)", impl))
     direct, calls = {}, {}
-    for f in fns:
+
+    def scan(f):
+        if f in direct:
+            return
         b = strip_comments(fn_body(impl, f))
         direct[f] = set("%s.%s" % (a, b_) for a, b_ in re.findall(MUT, b))
         # an index replaced wholesale is a mutation too (`self.path_set = ..`, `mem::take(&mut self.contents)`)
         direct[f] |= set("%s.assign" % a for a in re.findall(r"\bself\.(glyphs|contents|path_set|layers)\s*=[^=]", b))
         direct[f] |= set("%s.assign" % a for a in
                          re.findall(r"mem::(?:take|replace|swap)\(\s*&mut\s+self\.(glyphs|contents|path_set|layers)", b))
-        calls[f] = set(c for c in CALLS[typ] if re.search(r"\bself\." + c + r"\(", b))
+        # a local alias of the same name (`let path_set = &mut self.path_set;`) is read by MUT; an element borrow is no hand-out
+        b2 = re.sub(r"let\s+(glyphs|contents|path_set|layers)\s*=\s*&mut\s+self\.\1\s*;", "", b)
+        b2 = re.sub(r"mem::(?:take|replace|swap)\(\s*&mut\s+self\.(?:glyphs|contents|path_set|layers)", "", b2)
+        handed = re.findall(r"&mut\s+self\.(glyphs|contents|path_set|layers)\b(?![.\[])", b2)
+        if handed:
+            raise Anchor("%s: &mut self.%s handed to a function the translator does not follow" % (f, handed[0]))
+        # a mutator of an index the table has no word for (`contents.entry(..)` + `slot.insert`, `drain`, `extend`, ...) is an unknown shape
+        odd = re.findall(r"\b(?:self\.)?(glyphs|contents|path_set|layers)\.(entry|drain|extend|append|split_off|pop|truncate|swap_remove|retain_mut|pop_first|pop_last)\(", b)
+        if odd and f != "entry":
+            raise Anchor("%s: %s.%s(..) is not a mutator the translator knows" % (f, odd[0][0], odd[0][1]))
+        calls[f] = set(c for c in impl_fns if c != f and re.search(r"\b(?:self\.|Self::)" + c + r"\(", b))
+        for c in calls[f]:
+            scan(c)
+
+    for f in fns:
+        scan(f)
     # closure over calls to other methods of the same type
     changed = True
     while changed:
         changed = False
-        for f in fns:
+        for f in list(direct):
             for c in calls[f]:
-                if c in direct and not direct[c] <= direct[f]:
+                if not direct[c] <= direct[f]:
                     direct[f] |= direct[c]
                     changed = True
     return {f: sorted(direct[f]) for f in fns}
